@@ -19,6 +19,10 @@ SEAMDIR = os.path.dirname(os.path.abspath(__file__))
 
 EXC_CATALOGUE = ["E1", "E2", "E3", "Inj", "KeyError", "StopIteration", "EG"]
 
+# former generator guards for findings F6 (jumps inside finally) and F26 (return through finally inside a handler): both
+# repaired in /repo (5413ac279) for ordinary functions, so the guards are off; SIMKIT_GUARD=F6,F26 switches them back on
+QUARANTINE = {k: k in os.environ.get("SIMKIT_GUARD", "").split(",") for k in ("F6", "F26")}
+
 
 # --------------------------------------------------------------------------
 # grammar
@@ -53,10 +57,10 @@ class G:
                 self.pk += 1
                 out.append("%sfor %s in range(%d):" % (ind, v, self.rng.randint(1, 2)))
                 out += self.block(depth - 1, ind + "    ", True, in_finally, in_handler, noret)
-            elif r < 0.75 and in_loop and not in_finally and not self.star:
+            elif r < 0.75 and in_loop and not (in_finally and QUARANTINE["F6"]) and not self.star:
                 # quarantine no_jump_out_of_finally (F6): no break/continue/return lexically inside finally
                 out.append("%sif a == %d: %s" % (ind, self.rng.randint(0, 2), self.rng.choice(["break", "continue"])))
-            elif r < 0.81 and not in_finally and not self.star and not noret:
+            elif r < 0.81 and not (in_finally and QUARANTINE["F6"]) and not self.star and not (noret and QUARANTINE["F26"]):
                 out.append("%sif a == %d: return %d" % (ind, self.rng.randint(0, 2), self.pk))
             elif r < 0.87:
                 k = self.rng.random()
@@ -75,10 +79,10 @@ class G:
                 out += self.block(depth - 1, ind + "    ", in_loop, in_finally, in_handler, noret)
             else:
                 out.append(ind + self.p())
-        if not in_finally and not self.star and self.rng.random() < 0.10:
+        if not (in_finally and QUARANTINE["F6"]) and not self.star and self.rng.random() < 0.10:
             # an unconditional jump as the last statement of the block (the block "is a terminator" for the code generator);
             # never lexically inside finally (quarantine F6)
-            ch = ["raise %s(%d)" % (self.rng.choice(["E1", "E2", "E3"]), self.pk)] + ([] if noret else ["return %d" % self.pk])
+            ch = ["raise %s(%d)" % (self.rng.choice(["E1", "E2", "E3"]), self.pk)] + ([] if (noret and QUARANTINE["F26"]) else ["return %d" % self.pk])
             if in_loop:
                 ch += ["break", "continue"]
             if in_handler:
@@ -132,7 +136,7 @@ class G:
                 return out
             out.append("%s    %s" % (ind, self.x()))
             # quarantine F26: no bare 'raise' directly in a finally clause (only inside handlers nested in it)
-            out += self.block(depth, ind + "    ", in_loop, True, False)
+            out += self.block(depth, ind + "    ", in_loop, True, False if QUARANTINE["F26"] else in_handler)
         return out
 
 
@@ -230,7 +234,7 @@ def compare(ms, fi, arg, plan, sm_pair, check_tb, observer=None):
         # the compiled traceback has no entry for the CPython caller frames; both lists are restricted to the workload file
         if [tuple(x) for x in tbm] != [tuple(x) for x in tbs]:
             tbd = {"what": "traceback-chain", "model": tbm, "sut": tbs}
-            if is_known_f16(tbm, tbs):
+            if is_known_f16(tbm, tbs) or is_known_f16b(ms["src"], tbm, tbs):
                 tbd = {"what": "known-F16"}
     return rm, d, tbd
 
@@ -249,6 +253,55 @@ def is_known_f16(tbm, tbs):
         return False
     names = {x[0] for x in tbm}
     return all(x[0] in names for x in tbs)
+
+
+_bare_raise_lines = {}
+
+
+def bare_raise_in_finally_lines(src):
+    """line numbers of bare 'raise' statements lexically inside a finally clause (not inside a handler nested in it)"""
+    key = hash(src)
+    if key in _bare_raise_lines:
+        return _bare_raise_lines[key]
+    import ast
+    out = set()
+
+    def walk(node, in_fin):
+        if isinstance(node, ast.Raise) and node.exc is None and in_fin:
+            out.add(node.lineno)
+        if isinstance(node, ast.Try):
+            for ch in node.body + node.orelse:
+                walk(ch, in_fin)
+            for h in node.handlers:
+                for ch in h.body:
+                    walk(ch, False)
+            for ch in node.finalbody:
+                walk(ch, True)
+            return
+        if isinstance(node, (ast.FunctionDef, ast.AsyncFunctionDef, ast.Lambda)):
+            in_fin = False
+        for ch in ast.iter_child_nodes(node):
+            walk(ch, in_fin)
+    try:
+        walk(ast.parse(src), False)
+    except SyntaxError:
+        pass
+    _bare_raise_lines[key] = out
+    return out
+
+
+def is_known_f16b(src, tbm, tbs):
+    """Known finding F16 (second shape): a bare 'raise' directly inside a finally clause re-raises the exception in flight;
+    compiled code reports the line of that 'raise' for the function's traceback entry, CPython keeps the line where the
+    exception was first raised in the function.  Matched narrowly: same functions in the same order, and every differing
+    entry of the compiled chain names the line of such a 'raise'."""
+    tbm = [tuple(x) for x in tbm]
+    tbs = [tuple(x) for x in tbs]
+    if len(tbm) != len(tbs) or [x[0] for x in tbm] != [x[0] for x in tbs]:
+        return False
+    lines = bare_raise_in_finally_lines(src)
+    diff = [(m, s) for m, s in zip(tbm, tbs) if m != s]
+    return bool(diff) and all(s[1] in lines for m, s in diff)
 
 
 def plans_for(rng, nprobes, nsingle_cap, nmulti):
@@ -507,8 +560,8 @@ def check_C22(tier):
     rep.components = {"real": ["generated C for try/except/finally/with/raise/except*", "Cython/Utility/Exceptions.c", "CPython 3.12 runtime"],
                       "stub": ["probe/seam library deciding which call raises"]}
     rep.assumptions = ["CPython 3.12.1 executing the same source and plan is the reference", "message text of builtin exceptions is not compared",
-                       "quarantine no_jump_out_of_finally (known finding F6): the grammar emits no break/continue/return lexically inside a finally clause"]
-    rep.quarantined = ["F6: no break/continue/return lexically inside finally", "F26: no bare 'raise' directly inside a finally clause; no 'return' inside a try statement with a finally clause that is lexically inside an except handler (incl. that statement's own handlers)"]
+                       "the former grammar guards for F6/F26 (no jumps inside finally, no return through finally inside a handler) are off since both were repaired in /repo"]
+    rep.quarantined = []
     budget = core.env_budget(60 if tier == "quick" else 900)
     viol, mods, cfg = explore(rep, prop, seed, tier, "base", budget=budget)
     core.replay_known(prop, replay, rep)
